@@ -97,8 +97,12 @@ type verifC04Cell struct {
 	strict string // class tag + exact payload for --strict-equal
 }
 
-var verifC04Floats = []float64{0, math.Copysign(0, -1), 1, 1.5, -2, math.NaN(), math.Inf(1)}
-var verifC04Strings = []string{"1", " 1 ", "01", "1.0", "1.5", "+1", "true", "TRUE", "t", "abc", " AbC ", "abd", "", " ", "2012-02-03 09:18:15", "2012-02-03T09:18:15Z", "x:y", "[N]", "-0", "1e0"}
+var verifC04Floats = []float64{0, math.Copysign(0, -1), 1, 1.5, -2, math.NaN(), math.Inf(1), 1e19, 2.5e19, -1e19, 9223372036854775808, 1e300}
+
+// instants inside and outside the years 1678..2262 (where a time has a nanosecond count); the third and
+// fourth are exactly 2^64 ns apart
+var verifC04Instants = []time.Time{time.Unix(1328260695, 0).In(time.UTC), time.Unix(1328260696, 0).In(time.UTC), time.Date(1400, 1, 1, 0, 0, 0, 0, time.UTC), time.Date(1984, 7, 21, 23, 34, 33, 709551616, time.UTC), time.Date(9999, 12, 31, 0, 0, 0, 0, time.UTC)}
+var verifC04Strings = []string{"1", " 1 ", "01", "1.0", "1.5", "+1", "true", "TRUE", "t", "abc", " AbC ", "abd", "", " ", "2012-02-03 09:18:15", "2012-02-03T09:18:15Z", "x:y", "[N]", "-0", "1e0", "1e19", "25000000000000000000"}
 
 func verifC04Cell1(tag string) *verifC04Cell {
 	c := &verifC04Cell{class: verifChoice(tag+"class", 7)}
@@ -129,8 +133,9 @@ func verifC04Cell1(tag string) *verifC04Cell {
 			c.rung = 6
 		}
 	case 5:
-		c.t = int64(1328260695 + verifChoice(tag+"sec", 2))
-		c.p, c.rung = value.NewDatetime(time.Unix(c.t, 0).In(time.UTC)), 3
+		ti := verifC04Instants[verifChoice(tag+"sec", len(verifC04Instants))]
+		c.t = ti.Unix()
+		c.p, c.rung = value.NewDatetime(ti), 3
 	default:
 		c.s = verifC04Strings[verifChoice(tag+"string", len(verifC04Strings))]
 		c.p = value.NewString(c.s)
